@@ -269,7 +269,12 @@ func runC13Case(spec c13Spec, hist []mocrelay.ClientMsg, cut int, ending, peer s
 func genC13Spec(r *Rng, g *EvGen) c13Spec {
 	var s c13Spec
 	all := []string{"default", "cache", "router", "sqlite"}
-	switch r.Intn(5) {
+	switch r.Intn(6) {
+	case 5:
+		// a flat merge of four to six handlers (the same kind may appear several times)
+		for k := r.Range(4, 6); k > 0; k-- {
+			s.Bases = append(s.Bases, pick(r, []string{"default", "cache", "router", "default", "cache", "router", "sqlite"}))
+		}
 	case 0:
 		s.Bases = []string{pick(r, all)}
 	case 1, 2:
